@@ -246,9 +246,27 @@ def match_known(pid, signature):
 # implementation workers
 
 
+class CaseTimeout(Exception):
+    """a case did not return within CASE_TIMEOUT seconds"""
+
+
+CASE_TIMEOUT = float(os.environ.get("VERIF_CASE_TIMEOUT", "900"))
+
+
+def _case_alarm(signum, frame):
+    raise CaseTimeout(f"no answer within {CASE_TIMEOUT:.0f} s")
+
+
 def _worker(args):
     modname, spec = args
+    import signal
+    import threading
+    armed = threading.current_thread() is threading.main_thread()
     try:
+        if armed:
+            # per-case watchdog (streams that guard single scheduler calls with their own, shorter, alarm take it over)
+            signal.signal(signal.SIGALRM, _case_alarm)
+            signal.setitimer(signal.ITIMER_REAL, CASE_TIMEOUT)
         mod = importlib.import_module(modname)
         t = mod.run_impl(spec)
         t["spec"] = spec
@@ -281,6 +299,9 @@ def _worker(args):
                                          f"(an exception the harness does not expect from any legal input)",
                                  "detail": {"traceback": text[-1500:]}}]}
         return {"spec": spec, "crash": text}
+    finally:
+        if armed:
+            signal.setitimer(signal.ITIMER_REAL, 0)
 
 
 def default_compare(inp, impl, model):
@@ -331,8 +352,16 @@ def run_cases(ctx, specs, label):
         return
     nproc = min(16, max(1, len(specs) // 4)) if len(specs) > 8 else 1
     if nproc > 1:
+        # safety net: a case that never returns (an implementation that loops forever inside a call no stream guards with its own
+        # watchdog) ends the run as a harness error after a generous time instead of hanging it
+        limit = float(os.environ.get("VERIF_CASES_TIMEOUT", "2400" if len(specs) < 1000 else "5400"))
         with mp.get_context("fork").Pool(nproc) as pool:
-            traces = pool.map(_worker, [(modname, s) for s in specs], chunksize=max(1, len(specs) // (nproc * 4)))
+            res = pool.map_async(_worker, [(modname, s) for s in specs], chunksize=max(1, len(specs) // (nproc * 4)))
+            try:
+                traces = res.get(timeout=limit)
+            except mp.TimeoutError:
+                pool.terminate()
+                raise RuntimeError(f"{label}: the cases did not finish within {limit:.0f} s (a worker hangs)")
     else:
         traces = [_worker((modname, s)) for s in specs]
     crashes = [t for t in traces if "crash" in t]
